@@ -1080,7 +1080,7 @@ sslio2_case(long long seed, long idx)
 	br_sslio_context ioc;
 	uint16_t sl[1];
 	static unsigned char buf[4096];
-	int role = (int)(idx & 1), fault = (int)((idx >> 1) % 4);   /* 0 none, 1 read fails, 2 write fails, 3 none + close while the peer still sends */
+	int role = (int)(idx & 1), fault = (int)((idx >> 1) % 5);   /* 0 none, 1 read fails, 2 write fails, 3 none + close while the peer still sends, 4 a write fails during the closure itself */
 	size_t my_total, sent = 0, got = 0;
 	int failed_seen = 0, op, guard = 0, rc = 0;
 	char what[300];
@@ -1214,6 +1214,13 @@ sslio2_case(long long seed, long idx)
 		/* everything written must reach the peer application, in order (checked at each read by tp_act_read) */
 		int cr;
 		if (fault == 3) vf_stat("sslio2_close_while_peer_sends", 1);
+		if (fault == 4) {
+			/* a last unflushed piece, then the transport dies while br_sslio_close is pushing it out */
+			size_t k = 1 + vf_below(&io.r, 200), i;
+			for (i = 0; i < k; i ++) buf[i] = tp_stream_byte(io.me->tx_key, sent + i);
+			if (br_sslio_write_all(&ioc, buf, k) == 0) { sent += k; my_total += k; }
+			io.fail_write_at = io.n_write + (long)vf_below(&io.r, 3);
+		}
 		cr = br_sslio_close(&ioc);
 		tp_check(io.me, "br_sslio_close");
 		vf_stat("sslio2_close_calls", 1);
@@ -1227,17 +1234,27 @@ sslio2_case(long long seed, long idx)
 			/* the injected failure hit during the closure itself: an error is a correct report (a clean
 			   result is correct too when the peer's close_notify had already arrived) */
 			vf_stat("sslio2_failure_during_close", 1);
+			if (!io.me->eng->shutdown_recv && (cr != 0 || br_ssl_engine_last_error(io.me->eng) == 0)) {
+				/* the peer's close_notify never arrived: whatever was still to be sent (data, our close_notify) is lost */
+				snprintf(what, sizeof what, "transport callback failed during br_sslio_close (read#%ld/write#%ld) before the peer's close_notify was received, but close returned %d with last_error=%d",
+					io.fail_read_at, io.fail_write_at, cr, br_ssl_engine_last_error(io.me->eng));
+				TP_VIOL("sslio2:transport-failure-reported-as-clean", what);
+			}
 		} else if (cr != 1 || br_ssl_engine_last_error(io.me->eng) != 0) {
 			snprintf(what, sizeof what, "br_sslio_close returned %d, last_error=%d on an orderly closure (got=%zu/%zu)", cr, br_ssl_engine_last_error(io.me->eng), got, io.peer_target);
 			TP_VIOL("sslio2:close-not-clean", what);
 		}
-		if (io.peer->rx_done != my_total || io.peer->rx_bad) {
+		if (io.failed) {
+			/* the transport died during the closure: delivery of the tail is not expected (the error is, see above);
+			   what did arrive is still checked byte by byte by the peer's reads */
+			if (io.peer->rx_bad) TP_VIOL("sslio2:wrong-byte", "peer received bytes that were not written at that position");
+		} else if (io.peer->rx_done != my_total || io.peer->rx_bad) {
 			snprintf(what, sizeof what, "peer application received %zu of the %zu bytes written through br_sslio (flushed and closed)", (size_t)io.peer->rx_done, my_total);
 			TP_VIOL("sslio2:stream-incomplete", what);
 		} else {
 			vf_stat("sslio2_streams_exact", 1);
 		}
-		if (fault != 3 && got != io.peer_target) TP_VIOL("sslio2:read-incomplete", "did not read everything the peer wrote");
+		if (fault != 3 && !io.failed && got != io.peer_target) TP_VIOL("sslio2:read-incomplete", "did not read everything the peer wrote");
 	}
 	tp_pair_free(&s.p);
 }
